@@ -13,7 +13,8 @@ COQ = os.path.join(VERIF, 'coq')
 REPO = os.environ.get('PYINS_REPO', '/repo')
 PY = '/venv/bin/python'
 ENV = dict(os.environ, PYTHONPATH=REPO, PYTHONHASHSEED='0', PYINS_REPO=REPO,
-           NUMBA_DISABLE_PERFORMANCE_WARNINGS='1')
+           NUMBA_DISABLE_PERFORMANCE_WARNINGS='1', OMP_NUM_THREADS='1', OPENBLAS_NUM_THREADS='1',
+           MKL_NUM_THREADS='1')
 
 # axioms of the standard library that property theorems may depend on
 AXIOM_WHITELIST = [
